@@ -389,6 +389,8 @@ def run_scenario(ctx, variant, h, lengths, script=None, taglens=None, hoff=0, sa
                     return True
                 if 'compress_' not in term.sexpr():
                     return False
+                if term.size() != 8:
+                    return any(dirty(simplify(Extract(8 * k + 7, 8 * k, term))) for k in range(term.size() // 8))
                 return any(is_true(simplify(term == fb)) for fb in inner_bytes)
             leaks = []
             for o in range(O['road']):
